@@ -6,6 +6,8 @@ from __future__ import annotations
 import ast
 import math
 
+import numpy as np
+
 from .. import AnalysisError
 from ..astutil import bind_call, deref, names_in, raises_class, single_def, walk_stmts
 from ..cfg import ENTRY, cfg_of
@@ -456,6 +458,8 @@ def run(ctx):
         ctx.floor("R7", len(stores), 1, "block stores")
     _check_screened_quantity(ctx, co)
     _check_translation_weights(ctx, co)
+    _check_kernel(ctx)
+    _check_normalization(ctx)
 
 
 def _seg(ctx):
@@ -779,3 +783,140 @@ def _check_translation_weights(ctx, co):
     else:
         ctx.ok("R10", f"{sinks} kernel / exponential arguments have translation weight 0; no product of two position-dependent quantities", f"{co.module.relpath}:{co.lineno}")
     ctx.floor("R10", sinks, 3, "arguments of exp / the 1-D kernels")
+
+
+def _check_kernel(ctx):
+    """R11: the one-dimensional overlap kernel, evaluated on symbols, satisfies the defining recurrence.
+
+    With S(n1, n2) = integral of (x - A)^n1 (x - B)^n2 exp(-a (x - P)^2) dx / integral of exp(-a (x - P)^2) dx,
+    x1 = P - A, x2 = P - B and T = 2 a:   S(0, 0) = 1,   S(n1 + 1, n2) = x1 S(n1, n2) + (n1 S(n1 - 1, n2) + n2 S(n1, n2 - 1)) / T,
+    and S(n1, n2; x1, x2) = S(n2, n1; x2, x1).  `GaussianOverlap.__init__` (binomials, double factorials) and
+    `compute_overlap_gaussian_1d` are interpreted with exact stubs for scipy's binom / factorial2; the identities are
+    polynomial identities in x1, x2 and 1/T, checked for all n1, n2 <= 5.  Any other correct algorithm satisfies them."""
+    import math
+    from fractions import Fraction
+
+    from ..accessors import AccessorEval, Raised, Rec
+    from ..symarr import NotSymbolic, Sym
+
+    prog = ctx.prog
+    ctx.rule("R11", "the 1-D overlap kernel satisfies its defining recurrence and symmetry (evaluated on symbols)", "a wrong binomial, double factorial, power of 2a or parity step gives wrong overlaps for d and higher functions only")
+    gc = prog.cls("iodata.overlap.GaussianOverlap")
+    init = gc.methods.get("__init__")
+    kern = gc.methods.get("compute_overlap_gaussian_1d")
+    if init is None or kern is None:
+        raise AnalysisError("GaussianOverlap.__init__ / compute_overlap_gaussian_1d not found")
+
+    def fact2(args, kw):
+        m = args[0]
+        if isinstance(m, np.ndarray):
+            return np.array([fact2([int(x)], {}) for x in m.ravel()]).reshape(m.shape)
+        m = int(m)
+        return 1 if m <= 0 else math.prod(range(m, 0, -2))
+
+    stubs = {"scipy.special.binom": lambda a, k: Fraction(math.comb(int(a[0]), int(a[1]))), "scipy.special.factorial2": fact2}
+    nmax = 5
+    rec = Rec(gc)
+    x1, x2, T = Sym.atom("x1"), Sym.atom("x2"), Sym.atom("T")
+    S = {}
+    try:
+        ev = AccessorEval(prog, gc, limit=4000)
+        ev.ext_stubs = stubs
+        ev.run(init, rec, {init.posparams[1]: nmax})
+        for n1 in range(nmax + 1):
+            for n2 in range(nmax + 1):
+                ev = AccessorEval(prog, gc, limit=20000)
+                ev.ext_stubs = stubs
+                S[(n1, n2)] = Sym.const(ev.run(kern, rec, dict(zip(kern.posparams[1:], [x1, x2, n1, n2, T]))))
+        Sx = {}
+        for n1, n2 in ((0, 1), (2, 1), (3, 2), (1, 4)):
+            ev = AccessorEval(prog, gc, limit=20000)
+            ev.ext_stubs = stubs
+            Sx[(n1, n2)] = Sym.const(ev.run(kern, rec, dict(zip(kern.posparams[1:], [x2, x1, n2, n1, T]))))
+    except Raised as exc:
+        ctx.violate("R11", f"the 1-D kernel raises {exc.args[0]} for angular momenta up to {nmax}", kern, kern.node, construct="kernel raises")
+        return
+    except NotSymbolic as exc:
+        raise AnalysisError(f"GaussianOverlap is outside the evaluation whitelist: {exc}") from exc
+    bad = None
+    if not (S[(0, 0)] == Sym.const(1)):
+        bad = f"S(0, 0) = {S[(0, 0)]!r}, expected 1"
+    zero = Sym.const(0)
+    for n1 in range(nmax):
+        for n2 in range(nmax + 1):
+            if bad:
+                break
+            rhs = x1 * S[(n1, n2)] + (Sym.const(n1) * (S[(n1 - 1, n2)] if n1 else zero) + Sym.const(n2) * (S[(n1, n2 - 1)] if n2 else zero)) / T
+            if not (S[(n1 + 1, n2)] == rhs):
+                bad = f"S({n1 + 1}, {n2}) = {str(S[(n1 + 1, n2)])[:70]} differs from x1 S({n1}, {n2}) + ({n1} S({n1 - 1}, {n2}) + {n2} S({n1}, {n2 - 1})) / T = {str(rhs)[:70]}"
+    for (n1, n2), v in Sx.items():
+        if not bad and not (v == S[(n1, n2)]):
+            bad = f"S({n1}, {n2}; x1, x2) differs from S({n2}, {n1}; x2, x1): the kernel is not symmetric under exchanging the two functions"
+    if bad:
+        ctx.violate("R11", f"1-D overlap kernel: {bad}", kern, kern.node, construct=f"kernel recurrence: {bad}"[:170])
+    else:
+        ctx.ok("R11", f"1-D overlap kernel: S(0,0) = 1, the recurrence in n1 for all n1 < {nmax}, n2 <= {nmax} and the exchange symmetry hold as polynomial identities in x1, x2, 1/T", f"{kern.module.relpath}:{kern.lineno}")
+
+
+def _check_normalization(ctx):
+    """R12: primitive normalisation constants, the kernel and the Gaussian prefactor fit together: for one Cartesian
+    primitive with exponent a and powers n, N(a, n)^2 (pi / 2a)^{3/2} prod_k S(n_k, n_k; 0, 0; 4a) = 1 (self-overlap of a
+    normalised function).  `gob_cart_normalization` and the kernel are evaluated numerically for exponents 0.5, 1.25, 3 and
+    eight power triples up to l = 5; the identity fixes the power of a, the factor 4 and the double factorials."""
+    import math
+
+    from ..accessors import AccessorEval, Raised, Rec
+    from ..symarr import NotSymbolic
+
+    prog = ctx.prog
+    ctx.rule("R12", "normalisation constants x prefactor x kernel give unit self-overlap (evaluated)", "a wrong power or double factorial in the normalisation: every overlap of d and higher functions is scaled")
+    gn = prog.funcs.get("iodata.overlap.gob_cart_normalization")
+    gc = prog.cls("iodata.overlap.GaussianOverlap")
+    if gn is None:
+        raise AnalysisError("overlap.gob_cart_normalization not found")
+
+    def fact2(args, kw):
+        m = args[0]
+        if isinstance(m, np.ndarray):
+            return np.array([fact2([int(x)], {}) for x in m.ravel()], dtype=float).reshape(m.shape)
+        m = int(m)
+        return 1 if m <= 0 else math.prod(range(m, 0, -2))
+
+    stubs = {"scipy.special.binom": lambda a, k: float(math.comb(int(a[0]), int(a[1]))), "scipy.special.factorial2": fact2}
+    rec = Rec(gc)
+    bad = None
+    npts = 0
+    try:
+        ev = AccessorEval(prog, gc, limit=4000)
+        ev.ext_stubs = stubs
+        init, kern = gc.methods["__init__"], gc.methods["compute_overlap_gaussian_1d"]
+        ev.run(init, rec, {init.posparams[1]: 5})
+        for alpha in (0.5, 1.25, 3.0):
+            for n in ((0, 0, 0), (1, 0, 0), (1, 1, 0), (2, 0, 0), (2, 1, 0), (3, 0, 0), (1, 1, 1), (2, 2, 1)):
+                ev = AccessorEval(prog, None, limit=4000)
+                ev.module = gn.module
+                ev.ext_stubs = stubs
+                ev.stubs = {"iodata.overlap.factorial2": fact2}  # the module's wrapper of scipy's factorial2 (n = -1 -> 1)
+                norm = float(np.asarray(ev.run_free(gn, [alpha, np.array(n)], {}), dtype=float))
+                k = 1.0
+                for nk in n:
+                    ev2 = AccessorEval(prog, gc, limit=20000)
+                    ev2.ext_stubs = stubs
+                    kv = ev2.run(kern, rec, dict(zip(kern.posparams[1:], [0.0, 0.0, nk, nk, 4 * alpha])))
+                    if hasattr(kv, "terms"):
+                        if any(m != () for m in kv.terms):
+                            raise NotSymbolic("kernel value is symbolic")
+                        kv = kv.terms.get((), 0)
+                    k *= float(kv)
+                val = norm * norm * (math.pi / (2 * alpha)) ** 1.5 * k
+                npts += 1
+                if abs(val - 1.0) > 1e-10 and bad is None:
+                    bad = f"exponent {alpha}, powers {n}: N^2 (pi/2a)^1.5 prod S = {val:.6g} instead of 1"
+    except Raised as exc:
+        bad = f"evaluation raises {exc.args[0]}"
+    except NotSymbolic as exc:
+        raise AnalysisError(f"gob_cart_normalization / the kernel are outside the evaluation whitelist: {exc}") from exc
+    if bad:
+        ctx.violate("R12", f"primitive normalisation: {bad}", gn, gn.node, construct=f"normalisation identity: {bad}"[:150])
+    else:
+        ctx.ok("R12", f"unit self-overlap of a normalised Cartesian primitive at {npts} (exponent, powers) points", gn.where)
